@@ -99,6 +99,8 @@ func C02(c *ev.Ctx) {
 	if !glCalibration(c, false) {
 		return
 	}
+	mustPanicKeys = map[string]bool{"panic.taken": true, "log.panicf-taken": true, "log.panic-taken": true}
+	defer func() { mustPanicKeys = nil }()
 	rr := rng(c, 2)
 	perPkg := 9
 	npk := c.Pick(16, 480)
@@ -140,6 +142,7 @@ func C02(c *ev.Ctx) {
 		entries = append(entries, base.Entries...)
 		keys := map[string]bool{}
 		usesMachine := false
+		var std []string
 		for _, ix := range idxs {
 			it := goosegen.Catalogue[ix]
 			n++
@@ -148,6 +151,7 @@ func C02(c *ev.Ctx) {
 			if strings.Contains(decls+entry, "machine.") {
 				usesMachine = true
 			}
+			std = append(std, it.Imports()...)
 			pieces = append(pieces, decls, entry)
 			entries = append(entries, goosegen.Entry{Name: en, Keys: []string{it.Key}})
 			keys["c02."+it.Key] = true
@@ -172,11 +176,18 @@ func C02(c *ev.Ctx) {
 		if usesMachine && !strings.Contains(src, "goose/machine\"") {
 			src = strings.Replace(src, "package gen\n\n", "package gen\n\nimport \"github.com/goose-lang/goose/machine\"\n\n", 1)
 		}
+		src = goosegen.AddImports(src, std)
 		parts := strings.Split(src, "\n\n")
+		nImp := 0
+		for _, pt := range parts[1:] {
+			if strings.HasPrefix(pt, "import ") {
+				nImp++
+			}
+		}
 		for _, pc := range pieces {
 			at := 1 + rr.IntN(len(parts))
-			if at < 2 && strings.Contains(src, "import ") {
-				at = 2
+			if at < 1+nImp {
+				at = 1 + nImp
 			}
 			if at > len(parts) {
 				at = len(parts)
